@@ -160,6 +160,26 @@ PROPS = {
         "Appendix B), stability within a tick, fresh identity/history for "
         "re-created cgroups.",
     },
+    "C08": {
+        "flavours": ["asan"],
+        "runs": {"quick": 4000, "thorough": 150000},
+        "rule": "one case = 1-3 rulesets each with one real detector "
+        "(pressure_above, pressure_rising_beyond, memory_above with byte / "
+        "suffixed / percent thresholds and threshold_anon, memory_reclaim, "
+        "swap_free, exists, nr_dying_descendants) wrapped by sim_wrap; "
+        "single, multiple and wildcard cgroups with a dominance order; "
+        "4-14 ticks of samples drawn around the threshold (T, T+-0.01, far), "
+        "irregular tick spacing (0, +-1 ns, 0.5-31 s), cgroups appearing and "
+        "disappearing; non-trivial = at least one verdict decided; distinct "
+        "= distinct event-log hash",
+        "level_text": "seeded exploration on a virtual clock; oracle = "
+        "three-valued reference predicate over the whole sample history per "
+        "docs/core_plugins.md (strictly above threshold since a tick >= "
+        "duration ago, reset on a non-exceeding sample, 60 s window + 10 s "
+        "level + fast-fall test, pgscan growth within duration, "
+        "instantaneous comparisons); verdicts the documentation does not "
+        "settle abstain and are counted.",
+    },
     "C02": {
         "flavours": ["asan"],
         "runs": {"quick": 4000, "thorough": 150000},
